@@ -56,7 +56,9 @@ pub fn check_direction(log: &[WireRec], src: SocketAddr, dst: SocketAddr, conn_i
         rep.data_packets += 1;
         rep.max_payload = rep.max_payload.max(p.payload.len());
         let fs = *first_seq.get_or_insert(p.seq);
-        let rel = dist(p.seq, fs);
+        // unwrap around the highest number seen so far (transfers may be longer than 32767 packets)
+        let top = highest.max(0);
+        let rel = top + dist(p.seq, fs.wrapping_add(top as u16));
         if (p.seq as u32) < (fs as u32) && rel > 0 {
             rep.wrapped = true;
         }
